@@ -31,6 +31,9 @@ CLAIMED = {
  "C09": ("counter/set pairing by control dependence, guard dominance (E6), who-may-reset reachability, must-pass-through of the state report, loop-unconditional refresh (static)",
          "Structural clauses decided for every path: the connection counter gating the distribution fast path equals the set size by construction (insert stores true and is paired with an absence-test-controlled increment, delete with a presence-test-controlled decrement, wholesale reset replaces every set and zeroes the counter, no other writers, reset reachable only from the stop-coupling request); both endpoints of an inserted pair proven in range and distinct, every table index proven in range; the reported state is a full transcription of the live table, no cached copy exists, and every request closure that can change the table publishes the recomputed state afterwards on every path; distribution refreshes every processor's primaries unconditionally each cycle, merges exactly the receiver's sources and hands each processor its own list; edit errors reach the reply. Not decided: multiset equality of emitted secondaries per cycle (runtime values).",
          "TriggerBroker and its field names are name-keyed anchors; equal-length invariants are derived (make with the same size value, size field not written in the run phase)", "DESIGN.md §2 C09"),
+ "C15": ("nil-guard dominance, guard dominance (E6) with loop-invariant inference and counting-loop parity, layout/table agreement, call-graph reachability of crash sites (static)",
+         "Panic-freedom clauses of the packet decoder, accessors, constructors and encoder decided for every byte string / argument as far as visible in the code: every dereference of a header item the decoder may leave unset is dominated by its nil test; every integer divisor is proven non-zero; every slice index, slice bound, make size and fixed-width big-endian read is proven in range (TLV parser: inferred invariant len(remaining)==bytes remaining plus the size guards; shape loop by step parity); the fixed header is written and read as the same fields at the same offsets and widths and every emitted TLV tag is parsed; the decoder reads exactly 16, headerLength-16 and at most payloadLength bytes; no explicit panic is reachable. Two stated weaker clauses: ReadValue's index is proven below Frames() (the relation Frames() <= len(Data) is not decided); ReadPacketPlusPad's stride is an API precondition. Not decided: byte-swap stride arithmetic, round-trip equality of payload values.",
+         "encoding/binary fixed-width readers panic exactly on short slices; io.ReadFull semantics; integer arithmetic in guards does not wrap (uint8/uint16 header arithmetic is guarded before use)", "DESIGN.md §2 C15"),
  "C13": ("dominating-comparison facts, path rule, control dependence and flow-insensitive dependence slicing on SSA (static)",
          "Structural necessary conditions only (the numeric identities are not decided): projectors/basis installed only after the three shape equalities hold; record length never changed while projectors validated for another length stay installed; sample->float64 conversions under the matching arm of the signed flag; each analysis result depends on the record's own data/pre-trigger count (never on the per-channel length setting), model coefficients on the projector matrix, residual on the basis matrix; slices stored into a record are fresh per record.",
          "dependence is over-approximated through memory of locals, make() sites and struct-field storage; field names of DataRecord are name-keyed anchors", "DESIGN.md §2 C13"),
